@@ -6,13 +6,14 @@
    path_to_node, index-order iterators as coded).
    Specification: Arena/IterSpec.v -- itree (the tree an arena unfolds to), the forest machine (pending subtrees;
    Skip forgets the children of the last item), the recursive listings pre / level_order / pree, size, height.
-   Hypotheses: tree_inv a troot T (the arena is exactly the tree T below troot: C12's invariant, checked on every
-   dump through minvb / unfold) and subtree t T (t = the subtree of the start node: ANY node of the tree).
+   Hypotheses: tree_inv a troot T (the arena is exactly the tree T below troot; implied by C12's invariant:
+   C13_applies_to_every_reachable_arena; checked on every dump through minvb) and subtree t T (t = the subtree of the start node: ANY node of the tree).
    Scripts are arbitrary lists over {Next, Skip}: skips at every position, repeated skips, calls after the end.
    obs_match item o so: the coded machine returned the item of the specification (never a panic) and its
    size_hint (lb, Some ub) satisfies lb <= (number of items still to come) <= ub. *)
 From Coq Require Import List Arith Permutation Sorted.
-From AT Require Import Num Cells Iter IterSpec IterProofs IterInst IterCor IterMetrics IterMetricsProofs IterRefuted.
+From AT Require Import Num Cells Iter IterSpec IterProofs IterInst IterCor IterMetrics IterMetricsProofs IterRefuted IterBridge.
+From AT Require Tree TreeInv.
 Import ListNotations.
 Local Open Scope nat_scope.
 
@@ -151,6 +152,17 @@ Proof. exact @unfold_sound. Qed.
 Theorem C13_minvb_sound : forall V (a : arena V) r T, minvb a r = Some T -> minv a r T.
 Proof. exact @minvb_sound. Qed.
 
+(* ------------------------------------------------------------------ all tree shapes and index layouts: histories *)
+(* the hypotheses hold for every arena that C12's invariant describes, i.e. (C12_add_root, C12_history) for every
+   state reachable from add_root by any sequence of Tree operations -- missing children, holes and re-used indices
+   included -- and every stored index is a start node the theorems above speak about (minv contains tree_inv) *)
+Theorem C13_applies_to_every_reachable_arena : forall K st, TreeInv.Inv K st ->
+  exists r T, Tree.t_root st = Some r /\ minv (Tree.t_arena st) r T.
+Proof. exact inv_gives_minv. Qed.
+Theorem C13_every_stored_index_is_a_start_node : forall V (a : arena V) r T, minv a r T ->
+  forall i, acontains a i = true -> exists t, subtree t T /\ idx t = i.
+Proof. exact @stored_index_is_start_node. Qed.
+
 (* ------------------------------------------------------------------ the code as found (v_orig) is refuted *)
 (* D2: skip_subtree took size_lb before the pops: root with two leaves, next(), skip_subtree(): hint (2, _), 0 left *)
 Theorem C13_D2_lower_hint_after_skip_refuted :
@@ -270,6 +282,8 @@ Print Assumptions C13_terminal_indices.
 Print Assumptions C13_decision_indices.
 Print Assumptions C13_unfold_sound.
 Print Assumptions C13_minvb_sound.
+Print Assumptions C13_applies_to_every_reachable_arena.
+Print Assumptions C13_every_stored_index_is_a_start_node.
 Print Assumptions C13_D2_lower_hint_after_skip_refuted.
 Print Assumptions C13_D3_repeated_skip_refuted.
 Print Assumptions C13_D4_edge_start_node_refuted.
